@@ -22,6 +22,8 @@ fn main() {
     let mut only: Option<usize> = None;
     let mut stride = 1usize;
     let mut offset = 0usize;
+    let mut group = 1usize;       // items are sharded in consecutive groups of this size
+    let mut pairs = false;        // run each group of two items concurrently on two OS threads
     let mut i = 3;
     while i < args.len() {
         match args[i].as_str() {
@@ -29,6 +31,8 @@ fn main() {
             "--only" => { only = Some(args[i + 1].parse().unwrap()); i += 2; }
             "--stride" => { stride = args[i + 1].parse().unwrap(); i += 2; }
             "--offset" => { offset = args[i + 1].parse().unwrap(); i += 2; }
+            "--group" => { group = args[i + 1].parse().unwrap(); i += 2; }
+            "--pairs" => { pairs = true; group = 2; i += 1; }
             _ => panic!("bad arg"),
         }
     }
@@ -36,8 +40,31 @@ fn main() {
         std::panic::set_hook(Box::new(|_| {}));
     }
     let mut out = std::fs::OpenOptions::new().create(true).append(true).open(&args[2]).unwrap();
+    if pairs {
+        let items = std::sync::Arc::new(items);
+        let mut k = 0;
+        while k + 1 < items.len() {
+            if k >= start && (k / 2) % stride == offset {
+                writeln!(out, "{{\"i\":{},\"start\":true}}", k).unwrap();
+                out.flush().unwrap();
+                let (a, b) = (items.clone(), items.clone());
+                let ha = std::thread::spawn(move || run_program(&a[k].prog, &a[k].cfg));
+                let hb = std::thread::spawn(move || run_program(&b[k + 1].prog, &b[k + 1].cfg));
+                for (j, h) in [(k, ha), (k + 1, hb)] {
+                    let r = h.join().expect("driver: model thread died");
+                    let mut v = serde_json::to_value(&r).unwrap();
+                    v["i"] = j.into();
+                    v["ms"] = 0.into();
+                    writeln!(out, "{}", v).unwrap();
+                }
+                out.flush().unwrap();
+            }
+            k += 2;
+        }
+        return;
+    }
     for (k, it) in items.iter().enumerate() {
-        if k < start || k % stride != offset { continue; }
+        if k < start || (k / group) % stride != offset { continue; }
         if let Some(o) = only { if o != k { continue; } }
         writeln!(out, "{{\"i\":{},\"start\":true}}", k).unwrap();
         out.flush().unwrap();
